@@ -228,7 +228,7 @@ func (c *c06Case) concreteTs(rng *rand.Rand, abs int, d15 bool) string {
 
 var c06Modes = "SRD"
 
-func c06RenderTrig(t *c06Tok, rng *rand.Rand, first bool) []byte {
+func c06RenderTrig(t *c06Tok, rng *rand.Rand, first, last bool) []byte {
 	var b bytes.Buffer
 	if !(first && rng.Intn(4) == 0) {
 		b.WriteString("\x1b7\x07")
@@ -239,6 +239,9 @@ func c06RenderTrig(t *c06Tok, rng *rand.Rand, first bool) []byte {
 		if t.Port >= 0 {
 			b.WriteString(":" + strconv.Itoa(t.Port))
 		}
+	}
+	if last && rng.Intn(3) == 0 {
+		return b.Bytes() // the read ends right behind the trigger; its line end comes with the next read
 	}
 	b.WriteString("\r\n")
 	return b.Bytes()
@@ -357,7 +360,7 @@ func c06Concretise(c *c06Case, rng *rand.Rand) {
 						t.Ts = c.concreteTs(rng, t.TsAbs, t.Shape == "d15")
 					}
 				}
-				b.Write(c06RenderTrig(t, rng, ti == 0))
+				b.Write(c06RenderTrig(t, rng, ti == 0, ti == len(st.Toks)-1))
 			case "part":
 				b.Write(c06RenderPart(t.K, rng))
 				if ti+1 < len(st.Toks) && (st.Toks[ti+1].T == "junk" || st.Toks[ti+1].T == "fin") && !bytes.HasSuffix(b.Bytes(), []byte("\n")) {
